@@ -288,7 +288,8 @@ class NativeMemSlave:
     """
 
     def __init__(self, sim, port, cmd_ready=None, max_out=8, wl1=1, rl1=3, extra=None, viol=None,
-                 name="mem", on_cmd=None, honour_wvalid=False, group=None):
+                 name="mem", on_cmd=None, honour_wvalid=False, group=None, honour_rready=False):
+        self.honour_rready = honour_rready
         self.sim = sim
         self.name = name
         self.nbytes = port.data_width // 8
@@ -391,13 +392,18 @@ class NativeMemSlave:
             self.nwdone += 1
             self.log.append(("w", a, data, we))
             sim.ev(self.name, "wdata", a, data, we, valid)
+        hold = False
         if self.rv:
             if not S[self.i_rr]:
-                self.nrlost += 1
-                if self.viol is not None:
-                    self.viol.add("rdata_not_ready_at_valid",
-                                  "%s: read data returned while the port was not ready to take it" % self.name)
-            self.out -= 1
+                if self.honour_rready:
+                    hold = True       # variant of the stub for ports that are allowed to stall read data
+                else:
+                    self.nrlost += 1
+                    if self.viol is not None:
+                        self.viol.add("rdata_not_ready_at_valid",
+                                      "%s: read data returned while the port was not ready to take it" % self.name)
+            if not hold:
+                self.out -= 1
         # grant (in order, one per cycle)
         if self.pend and self.pend[0][2] <= cyc and not self._blocked(self.pend[0]):
             we, a, _, seq, snap = self.pend.pop(0)
@@ -413,7 +419,9 @@ class NativeMemSlave:
         else:
             poke(self.i_wr, 0)
         # drive read data
-        if self.rpipe and self.rpipe[0][0] <= cyc:
+        if hold:
+            pass
+        elif self.rpipe and self.rpipe[0][0] <= cyc:
             _, a, snap, _g, _seq = self.rpipe.pop(0)
             v = self.read_word(a) if snap is None else snap
             self.rv = 1
